@@ -350,8 +350,12 @@ def check(repo, rep):
                 nread += 1
                 arg = e[1][2][0] if e[1][2] else None
                 ok = arg is not None and (P.call('min', budget, P.param('size'))(arg) or P.call('min', P.param('size'), budget)(arg))
-                rep.ob('limiter never asks for more than min(budget - already read, requested size)', ok, W(e[3]), '_Limiter.read:request', 'inner read asks %s' % show(arg)[:160],
-                       sample=dict(inner_request=show(arg)[:160]))
+                if MS:
+                    expected = fcall('min', ('bin', '-', ('attr', ('self',), MS[0]), ('attr', ('self',), cnt)), ('p', 'size'))
+                    formula(rep, 'limiter never asks for more than min(budget - already read, requested size)', arg, expected, W(e[3]), '_Limiter.read:request', 'the inner request', pattern_ok=ok,
+                            sample=dict(inner_request=show(arg)[:160]))
+                else:
+                    rep.ob('limiter never asks for more than min(budget - already read, requested size)', ok, W(e[3]), '_Limiter.read:request', 'inner read asks %s' % show(arg)[:160])
                 # the guard  size <= 0 -> None  precedes the inner read
                 guard = [c for c in l.conds[:e[4]] if (norm_cmp(c[0], c[1]) or (None,))[0] in ('>', '>=')]
                 gok = any((g := norm_cmp(c[0], c[1])) and ((g[0] == '>' and g[2] == ('c', 0)) or (g[0] == '>=' and g[2] == ('c', 1))) for c in l.conds[:e[4]])
@@ -359,7 +363,8 @@ def check(repo, rep):
                        'inner read reached under %s' % [(show(c[0])[:60], c[1]) for c in l.conds[:e[4]]])
             # counter update never under-counts what was returned
             ups = [e for e in l.effects if e[0] == 'store' and e[1] == ('attr', ('self',), cnt)]
-            if l.outcome == 'return' and l.value != ('c', None):
+            is_none_path = l.value is not None and any((g_ := norm_cmp(c[0], c[1])) and g_[0] == 'is' and g_[1] == l.value and g_[2] == ('c', None) for c in l.conds) or any(c[0] == l.value and not c[1] for c in l.conds)
+            if l.outcome == 'return' and l.value != ('c', None) and not is_none_path:
                 okup = False
                 for u in ups:
                     v = u[2]
